@@ -32,6 +32,14 @@ class PSym(KSym):
         I.insert(0, (r'^curve25519_dalek::edwards::CompressedEdwardsY::decompress$', self.p_decompress))
         I.insert(0, (r'^curve25519_dalek::edwards::EdwardsPoint::is_small_order$', self.p_small))
         I.insert(0, (r'^<T as curve25519_dalek::traits::IsIdentity>::is_identity$', self.p_ident))
+        I.insert(0, (r'^curve25519_dalek::scalar::Scalar::from_bits$', self.s_from_bits))
+        self.branches = []
+        def brancher(it_, f_, lab, c, ins):
+            from llsym.lsym import c_not
+            v = self.oracle.decide(("br", len(self.branches)), "branch %d: %r" % (len(self.branches), c))
+            self.branches.append((c, v)); it_.ctx.assume.append(c if v else c_not(c))
+            return ins[3] if v else ins[4]
+        self.allow_symbolic_branch = brancher
         I.insert(0, (r'^<curve25519_dalek::edwards::CompressedEdwardsY as core::cmp::PartialEq>::eq$', self.c_eq))
         I.insert(0, (r'^<curve25519_dalek::edwards::CompressedEdwardsY as subtle::ConstantTimeEq>::ct_eq$', self.c_eq))
     def sval(self, p):
@@ -65,6 +73,11 @@ class PSym(KSym):
     def p_small(self, it, a, name):
         g = self.get(a[0]); v = self.oracle.decide(("small", repr(g)), "%r has small order?" % (g,))
         return Poly.const(1 if v else 0)
+    def s_from_bits(self, it, a, name):
+        # legacy_compatibility: the 32 signature bytes are taken as they are (top bit masked by from_bits): the integer they denote
+        bs = [self.ctx.resolve(self.P(self.load(Ptr(a[1].r, a[1].o + k), 1))) for k in range(32)]
+        v = sum((b.scale(1 << (8 * k)) for k, b in enumerate(bs)), ZERO) - self.ctx.bits(bs[31], 7, 8).scale(1 << 255)
+        return self.puts(a[0], v)
     def p_ident(self, it, a, name):
         g = self.get(a[0]); v = self.oracle.decide(("ident", repr(g)), "%r is the identity?" % (g,))
         return Poly.const(1 if v else 0)
@@ -118,16 +131,16 @@ def sign_harness(rep, paths):
 DOM2 = [Poly.const(c) for c in b"SigEd25519 no Ed25519 collisions"]
 CTX = [0x63, 0x78]          # a 2-byte public context
 
-def verify_harness(rep, paths, strict, ph=False):
+def verify_harness(rep, paths, strict, ph=False, legacy=False):
     t0 = time.time()
     nm = ("verify_prehashed_strict" if strict else "verify_prehashed") if ph else ("verify_strict" if strict else "verify")
-    rec = dict(harness="serial64/VerifyingKey::%s is RFC 8032 5.1.7%s" % (nm, " + strict gates" if strict else ""), config="serial64", function="VerifyingKey::" + nm, goals=[], paths=0,
+    rec = dict(harness="serial64%s/VerifyingKey::%s is RFC 8032 5.1.7%s%s" % ("+legacy_compatibility" if legacy else "", nm, " + strict gates" if strict else "", " with only the top three bits of S checked" if legacy else ""), config="serial64", function="VerifyingKey::" + nm, goals=[], paths=0,
                bounds="all key points (formal element A with arbitrary stored encoding), all 2^512 signatures, 3-byte public message; every outcome of the data-dependent decisions",
                assumptions=["SHA-512 uninterpreted", "vartime_double_scalar_mul_basepoint(a, A, b) = a*A + b*B (C04), compress/decompress/is_small_order per contract (C03)"])
     status = "ok"; why = ""
-    def goal(g, ok, kind="structural"):
+    def goal(g, ok, kind="structural", **kw):
         nonlocal status, why
-        rec["goals"].append(dict(goal=g, verdict="unsat" if ok else "sat", solver_s=0.0, cases=1, solver_calls=0, kind=kind, nontrivial=True))
+        rec["goals"].append(dict(dict(goal=g, verdict="unsat" if ok else "sat", solver_s=0.0, cases=1, solver_calls=0, kind=kind, nontrivial=True), **kw))
         if not ok and status == "ok": status = "violation"; why = g
     try:
         mod = linked(paths); lay = layout_of(paths, "vp_layout_verifying_key", 3)
@@ -152,6 +165,22 @@ def verify_harness(rep, paths, strict, ph=False):
             got = bool(r.cval() & 1)
             tr = orc.trace; pd = "path %d [%s]" % (npaths, ", ".join("%s=%d" % (d[:28], v) for d, v in tr))
             canon = [v for d, v in tr if d.startswith("S canonical")]
+            if legacy:
+                # the only scalar check is  S[31] & 0xE0 == 0  (a two-way branch on the signature byte); the canonical decoder must not be consulted
+                goal("%s: legacy build never consults the canonical-scalar decoder" % pd, not canon)
+                top = [(c, v) for c, v in it.branches]
+                okb = len(top) == 1
+                if okb:
+                    c, v = top[0]
+                    # which side of the branch is 'top bits set'?  decide by evaluating the condition's polynomial for sig63 = 0 and sig63 = 0xE0
+                    hi3 = it.ctx.bits(sg[63], 5, 8)
+                    pr = smt.Problem(it.ctx)
+                    va, _, _, _ = pr.check(Cond("cmp", "ne", hi3, ZERO), timeout_s=30, split=False)     # path condition implies top bits clear?
+                    vb, _, _, _ = pr.check(Cond("cmp", "eq", hi3, ZERO), timeout_s=30, split=False)     # path condition implies top bits set?
+                    clear = va == "unsat"; setb = vb == "unsat"
+                    goal("%s: the branch taken is exactly 'S[31] & 0xE0 %s 0'" % (pd, "==" if clear else "!="), clear != setb, kind="QF_LIA", solver_calls=2)
+                    canon = [1 if clear else 0]
+                else: goal("%s: exactly one data-dependent branch (the top-three-bits test)" % pd, False); canon = [0]
             dec = [v for d, v in tr if "decodes" in d]; small = [v for d, v in tr if "small order" in d]; eqs = [v for d, v in tr if d.startswith("recomputed")]
             want = canon == [1] and eqs == [1] and (not strict or (dec == [1] and not any(small)))
             goal("%s: returns %s" % (pd, "Ok" if want else "Err"), got == want)
@@ -170,10 +199,11 @@ def verify_harness(rep, paths, strict, ph=False):
                          same(it.hash_inputs[1], DOM2 + [Poly.const(1), Poly.const(len(CTX))] + [Poly.const(c) for c in CTX] + sg[:32] + kb + it.hbytes[0]))
                 x, y, px, py = it.compares[0]
                 s = sum((b.scale(1 << (8 * k)) for k, b in enumerate(sg[32:])), ZERO); kk = Poly.var("w1" if ph else "w0")
+                if legacy: s = s - it.ctx.bits(sg[63], 7, 8).scale(1 << 255)
                 enc = x if isinstance(x, Enc) else (y if isinstance(y, Enc) else None)
                 other = py if isinstance(x, Enc) else px
                 want_g = G.base("B").scale(s) - G.base("A").scale(kk)
-                goal("%s: the compared encoding is Enc(s*B - k*A)" % pd, enc is not None and (enc.g - want_g).is_zero(), kind="polynomial identity")
+                goal("%s: the compared encoding is Enc(s*B - k*A)" % pd, enc is not None and all(it.ctx.resolve(q).is_zero() for q in (enc.g - want_g).c.values()), kind="polynomial identity")
                 goal("%s: it is compared with the 32 R bytes of the signature" % pd, same(it.cells(other, 32), sg[:32]))
             nd = orc.next_decisions(); rec["paths"] = npaths
             if nd is None or status != "ok" or npaths > 64: break
@@ -190,6 +220,9 @@ def verify_harness(rep, paths, strict, ph=False):
 def _paths(): return build.ir("serial64", "O0", crate="ed25519-dalek", features=["batch", "hazmat", "digest", "zeroize"], no_default=True, with_deps=True)
 def sign_harnesses(rep, tier):
     p = _paths(); return [lambda: sign_harness(rep, p), lambda: sign_ph_harness(rep, p)]
+def _paths_legacy(): return build.ir("serial64", "O0", crate="ed25519-dalek", features=["batch", "hazmat", "digest", "zeroize", "legacy_compatibility"], no_default=True, with_deps=True)
+def legacy_harnesses(rep, tier):
+    p = _paths_legacy(); return [lambda: verify_harness(rep, p, False, legacy=True), lambda: verify_harness(rep, p, True, legacy=True)]
 def verify_harnesses(rep, tier):
     p = _paths(); return [lambda: verify_harness(rep, p, False), lambda: verify_harness(rep, p, True), lambda: verify_harness(rep, p, False, ph=True), lambda: verify_harness(rep, p, True, ph=True)]
 
